@@ -32,7 +32,16 @@ pub fn gen_base(rng: &mut Rng) -> Scenario {
     sc.strict = rng.bool();
     sc.esi = rng.chance(1, 4);
     sc.closure_sink = rng.chance(1, 4);
-    sc.handlers = wl::observers(rng);
+    if rng.chance(1, 6) {
+        let (hs, joins) = wl::bundled_observers(rng);
+        sc.handlers = hs;
+        sc.joins = joins;
+    } else {
+        sc.handlers = wl::observers(rng);
+        if rng.chance(1, 4) {
+            sc.joins = wl::random_joins(rng, &sc.handlers);
+        }
+    }
     if rng.chance(1, 8) {
         sc.prealloc = rng.pick(&[0usize, 1, 7, 64]);
     }
